@@ -303,3 +303,145 @@ class PermutationMatrix(E2Contract):
                 row = row * s + i
             ref[row, col] = 1
         return [eq("permutation", out, ref, "P maps e_(i1..in) to e_(i_sigma(1)..i_sigma(n)), sigma = stable sort of the subsystem names")]
+
+
+# ------------------------------------------------------------------ qutrit -> two-qubit embedding
+
+def _embed_setup(W):
+    np = W.np
+    e3 = esys(W, 0, 3)
+    c3 = single(W, e3)
+    eq_ = [esys(W, 10, 2), esys(W, 11, 2)]
+    c4 = W.mod("quara.objects.composite_system").CompositeSystem(eq_)
+    V = np.zeros((4, 3), dtype=np.complex128)       # the isometry |k> -> k-th computational state of the qubit pair (k = 0,1,2)
+    for k in range(3):
+        V[k, k] = 1
+    return c3, eq_, c4, V
+
+
+class EmbeddingStatePovm(E2Contract):
+    """embedding a qutrit state / POVM into two qubits: physicality and all statistics of embedded inputs are preserved"""
+    name = "embed_qoperation_from_qutrits_to_qubits (state, POVM)"
+    prop = "C07"
+    targets = ("quara.objects.qoperation:QOperation.embed_qoperation_from_qutrits_to_qubits", "quara.objects.qoperation:QOperation._permutation_matrix_from_qutrits_to_qubits",
+               "quara.objects.qoperation:QOperation._calc_matrix_from_qutrits_to_qubits", "quara.objects.state:State._embed_qoperation_from_qutrits_to_qubits",
+               "quara.objects.povm:Povm._embed_qoperation_from_qutrits_to_qubits")
+    n_conformance = 1
+    max_paths = 8
+    frame = True
+
+    def configs(self, tier):
+        return [(2,), (3,)] + ([(4,)] if tier == "thorough" else [])
+
+    def inputs(self, W, cfg, mk):
+        (m,) = cfg
+        c3, eq_, c4, V = _embed_setup(W)
+        st = W.mod("quara.objects.state").State(c3, mk.array("s", 9), is_physicality_required=False)
+        pv = W.mod("quara.objects.povm").Povm(c3, [mk.array(f"p{x}_", 9) for x in range(m)], is_physicality_required=False)
+        return dict(st=st, pv=pv)
+
+    def run(self, W, cfg, inp):
+        c3, eq_, c4, V = _embed_setup(W)
+        Q = W.mod("quara.objects.qoperation").QOperation
+        st2 = Q.embed_qoperation_from_qutrits_to_qubits(inp["st"], eq_)
+        pv2 = Q.embed_qoperation_from_qutrits_to_qubits(inp["pv"], eq_)
+        return dict(st=st2.vec, pv=list(pv2.vecs), dim=st2.composite_system.dim, kinds=(type(st2).__name__, type(pv2).__name__))
+
+    def post(self, W, cfg, inp, out):
+        (m,) = cfg
+        np, S = W.np, W.S
+        c3, eq_, c4, V = _embed_setup(W)
+        Vd = V.conj().T
+        rho = S.op_from_vec(c3, inp["st"].vec)
+        rho2 = S.op_from_vec(c4, out["st"])
+        comp = np.eye(4, dtype=np.complex128) - V @ Vd
+        atol = W.mod("quara.settings").Settings.get_atol()
+        img = V @ rho @ Vd
+        cl = [eq("types", list(out["kinds"]), ["State", "Povm"], "the embedded objects keep their type"),
+              eq("on-two-qubits", out["dim"], 4, "the result lives on the two-qubit system"),
+              true("state==isometric-image", S.truncated(out["st"], S.vec_from_op(c4, img), atol),
+                   "rho_emb == V rho V^dagger (up to the documented truncation of entries below atol): trace, hermiticity and positivity are those of rho")]
+        for x in range(m):
+            E = S.op_from_vec(c3, inp["pv"].vecs[x])
+            E2 = V @ E @ Vd + comp / m
+            cl.append(true(f"povm-element==image+complement/m[{x}]", S.truncated(out["pv"][x], S.vec_from_op(c4, E2), atol),
+                           "E_emb == V E V^dagger + (1/m)(I - V V^dagger) (up to truncation): positive when E is, and the elements sum to I when the qutrit elements do"))
+            cl.append(eq(f"lemma:image-statistics[{x}]", np.trace(E2 @ img), np.trace(E @ rho),
+                         "Tr[(V E V^dagger + (I - V V^dagger)/m) V rho V^dagger] == Tr[E rho]: the images have the statistics of the originals"))
+        return cl
+
+    def canary(self, W, cfg, inp, out):
+        np, S = W.np, W.S
+        c3, eq_, c4, V = _embed_setup(W)
+        return [eq("canary", np.trace(S.op_from_vec(c4, out["pv"][0])), np.trace(S.op_from_vec(c3, inp["pv"].vecs[0])), "(false) embedding preserves the trace of POVM elements")]
+
+
+def _qutrit_channels(W):
+    """concrete non-unitary qutrit channels (Kraus rank >= 2) and instruments, as Kraus operators"""
+    np = W.np
+    I3 = np.eye(3, dtype=np.complex128)
+    X = np.array([[0, 0, 1], [1, 0, 0], [0, 1, 0]], dtype=np.complex128)
+    Z = np.array([[1, 0, 0], [0, -1, 0], [0, 0, 1]], dtype=np.complex128)
+    P0 = np.array([[1, 0, 0], [0, 0, 0], [0, 0, 0]], dtype=np.complex128)
+    P12 = I3 - P0
+    h = np.sqrt(1 / 2)
+    q = np.sqrt(1 / 4)
+    t = np.sqrt(3 / 4)
+    return {"unitary": [[X]], "mixed-unitary-2": [[h * I3, h * X]], "mixed-unitary-3": [[h * I3, q * X, q * Z]],
+            "dephasing-1/4": [[t * I3, q * Z]],
+            "projective-instrument": [[P0], [P12]], "instrument-rank2": [[h * P0, h * X @ P0], [P12]]}
+
+
+class EmbeddingChannels(E2Contract):
+    """embedding concrete qutrit gates / measurement processes of Kraus rank >= 1 (a finite list of instances: bounded stand-in)"""
+    name = "embed_qoperation_from_qutrits_to_qubits (gate, mprocess instances)"
+    prop = "C07"
+    targets = ("quara.objects.gate:Gate._embed_qoperation_from_qutrits_to_qubits", "quara.objects.mprocess:MProcess._embed_qoperation_from_qutrits_to_qubits",
+               "quara.objects.qoperation:QOperation.embed_qoperation_from_qutrits_to_qubits")
+    n_conformance = 0
+    max_paths = 8
+    frame = False
+    bounded = "six concrete qutrit channels / instruments of Kraus rank 1..3 (non-unitary included)"
+
+    def configs(self, tier):
+        return [("unitary",), ("mixed-unitary-2",), ("mixed-unitary-3",), ("dephasing-1/4",), ("projective-instrument",), ("instrument-rank2",)]
+
+    def inputs(self, W, cfg, mk):
+        return dict(probe=mk.real("probe"))
+
+    def run(self, W, cfg, inp):
+        np, S = W.np, W.S
+        c3, eq_, c4, V = _embed_setup(W)
+        kraus = _qutrit_channels(W)[cfg[0]]
+        hss = [S.hs_from_kraus(c3, ks) for ks in kraus]
+        Q = W.mod("quara.objects.qoperation").QOperation
+        if len(hss) == 1:
+            obj = W.mod("quara.objects.gate").Gate(c3, np.real(hss[0]), is_physicality_required=False)
+        else:
+            obj = W.mod("quara.objects.mprocess").MProcess(c3, [np.real(h) for h in hss], is_physicality_required=False)
+        emb = Q.embed_qoperation_from_qutrits_to_qubits(obj, eq_)
+        out = [emb.hs] if len(hss) == 1 else list(emb.hss)
+        return dict(hss=out, src=hss)
+
+    def post(self, W, cfg, inp, out):
+        np, S = W.np, W.S
+        c3, eq_, c4, V = _embed_setup(W)
+        Vd = V.conj().T
+        tol = 1e-9
+        close = lambda a, b: S.And(*[S.abs(x - y) <= tol for x, y in zip(S.flat(a), S.flat(b))])
+        # the linear map rho -> V rho V^dagger on coefficient vectors
+        basis3 = S.basis(c3)
+        Emb = np.array([S.flat(S.vec_from_op(c4, V @ B @ Vd)) for B in basis3]).T
+        total = 0
+        cl = []
+        for x, (h2, h3) in enumerate(zip(out["hss"], out["src"])):
+            total = total + h2
+            cl.append(true(f"acts-as-the-qutrit-map-on-embedded-states[{x}]", close(np.real(h2 @ Emb), np.real(Emb @ h3)),
+                           "HS_emb vec(V rho V^dagger) == vec(V G(rho) V^dagger) for every rho: all statistics of embedded inputs are preserved"))
+            choi = S.choi_from_hs(c4, h2)
+            ev = np.linalg.eigvalsh((choi + choi.conj().T) / 2)
+            cl.append(true(f"completely-positive[{x}]", S.And(*[e >= -tol for e in S.flat(ev)]), "the Choi matrix of every embedded branch is positive semidefinite"))
+        first = np.zeros(16)
+        first[0] = 1
+        cl.append(true("trace-preserving", close(total[0], first), "the embedded gate (sum of the embedded branches) is trace preserving: physicality is preserved"))
+        return cl
